@@ -21,7 +21,7 @@ func howClass(e string) string { return e }
 
 func main() {
 	c := vk.Init("C17")
-	c.Rule("case i: PRNG(seed,i) draws a template (fields/components/groups, depth<=3, 7 value types, header/body/trailer; every third template's trailer may hold components and groups too), a population (each leaf populated with p=0.7 through one of 5 constructor/setter paths; Set(nil) un-population; group entries direct or via AsTemplate) and values; plus every tests/fix44 message type populated through the items it exposes, plus the generated typed API by reflection (values set on group entries before AddEntry, on entries handed back by Entries(), and members replaced as a whole through Set<Component>/Set<Group> must be on the wire); plus updates AFTER a serialization on every fix44 message and every fourth template message: one body field set / un-set through its value, one group entry added, header untouched, serialized again after each step. distinct = hash(template shape, wire bytes); non-trivial = at least one populated non-framing field")
+	c.Rule("case i: PRNG(seed,i) draws a template (fields/components/groups, depth<=3, 7 value types, header/body/trailer; every third template's trailer may hold components and groups too), a population (each leaf populated with p=0.7 through one of 5 constructor/setter paths; Set(nil) un-population; group entries direct or via AsTemplate) and values; plus every tests/fix44 message type populated through the items it exposes, plus the generated typed API by reflection (values set on group entries before AddEntry, on entries handed back by Entries(), and members replaced as a whole through Set<Component>/Set<Group> must be on the wire); plus Set calls with values of a wrong Go type on every leaf (they return an error and must leave the wire unchanged); plus updates AFTER a serialization on every fix44 message and every fourth template message: one body field set / un-set through its value, one group entry added, header untouched, serialized again after each step. distinct = hash(template shape, wire bytes); non-trivial = at least one populated non-framing field")
 	c.Assume("fixref tokenizer and the harness's expected-field computation are the trusted base")
 	c.Assume("a Message is always given a header and a trailer component (possibly empty); never-SetHeader messages are not generated")
 	n := c.Pick(20000, 500000)
@@ -88,6 +88,9 @@ func main() {
 		m, be := mp.Build()
 		wire, err, pan := gen.Serialize(m)
 		judge("template", i, t.FT, t.Shape(), mp.Expected(true), wire, err, pan, mp.Describe(), be.Errs)
+		if err == nil && pan == "" && i%4 == 1 {
+			refusedSets(c, "template", i, m, wire)
+		}
 		if err == nil && pan == "" && i%4 == 0 {
 			updateAfterSerialization(c, "template", i, m, tagCountsOf(m))
 		}
@@ -104,6 +107,9 @@ func main() {
 			d = append(d, e.Path+":"+e.String())
 		}
 		judge("fix44/"+ty.Name, i, fixref.Std, "fix44/"+ty.Name, exp, wire, err, pan, strings.Join(d, " | "), errs)
+		if err == nil && pan == "" && i%2 == 1 {
+			refusedSets(c, "fix44/"+ty.Name, i, m, wire)
+		}
 		if err == nil && pan == "" {
 			updateAfterSerialization(c, "fix44/"+ty.Name, i, m, tagCountsOf(m))
 		}
@@ -237,6 +243,71 @@ func updateAfterSerialization(c *vk.Ctx, kind string, idx int, m *fix.Message, t
 				c.Violate("C17/update-after-serialization/added-entry-not-on-wire", fmt.Sprintf("%s #%d: an entry (first field %s=%s) was added to group %s (%d entries before) after a serialization; the next ToBytes has count field %s=%d %d times and the entry's first field %d times", kind, idx, leaf.Key, marker, g.NoTag(), before, g.NoTag(), before+1, nc, nv), replay)
 			}
 		}
+	}
+}
+
+// refusedSets calls Value.Set with values of Go types the field's value type refuses (it returns an error) on every
+// leaf of the message — populated or not, top level and inside group entries — and serializes again: a refused Set
+// must leave the wire as it was.
+func refusedSets(c *vk.Ctx, kind string, idx int, m *fix.Message, before []byte) {
+	wrong := func(v fix.Value) []interface{} {
+		switch v.(type) {
+		case *fix.String:
+			return []interface{}{42, []byte("x"), struct{}{}}
+		case *fix.Int:
+			return []interface{}{int64(8), "8", 8.0, struct{}{}}
+		case *fix.Uint:
+			return []interface{}{200, "200", int64(7)}
+		case *fix.Float:
+			return []interface{}{"1.5", 3, struct{}{}}
+		case *fix.Bool:
+			return []interface{}{"Y", 1, struct{}{}}
+		case *fix.Time:
+			return []interface{}{"20240101-00:00:00.000", 5}
+		case *fix.Raw:
+			return []interface{}{"text", 7}
+		}
+		return nil
+	}
+	refused := 0
+	var walk func(items fix.Items)
+	walk = func(items fix.Items) {
+		for _, it := range items {
+			switch el := it.(type) {
+			case *fix.KeyValue:
+				if el == nil || el.Value == nil {
+					continue
+				}
+				for _, w := range wrong(el.Value) {
+					if err := el.Value.Set(w); err != nil {
+						refused++
+					} else {
+						return // the type accepts this after all: nothing to learn from this message
+					}
+				}
+			case *fix.Component:
+				if el != nil {
+					walk(el.Items())
+				}
+			case *fix.Group:
+				if el != nil {
+					for _, e := range el.Entries() {
+						walk(e)
+					}
+				}
+			}
+		}
+	}
+	walk(m.Items())
+	if refused == 0 {
+		return
+	}
+	after, err, pan := gen.Serialize(m)
+	c.Count("refused_set_calls", int64(refused))
+	c.Count("messages_reserialized_after_refused_sets", 1)
+	if err != nil || pan != "" || !bytes.Equal(before, after) {
+		c.Violate("C17/refused-set-changed-the-wire", fmt.Sprintf("%s #%d: %d Set calls with values of a wrong Go type were refused with an error, yet the message serializes differently afterwards (err=%v panic=%s): before %s / after %s", kind, idx, refused, err, pan, vk.Trunc(fixref.Pretty(before), 300), vk.Trunc(fixref.Pretty(after), 300)),
+			map[string]interface{}{"generator": kind, "index": idx, "seed": c.Seed})
 	}
 }
 
